@@ -396,8 +396,9 @@ class Histogram1D(ObjectWithBinning, HistogramBase):
             if self.keep_missed:
                 self.overflow += weight
         else:
-            self._frequencies[ixbin] += weight
+            # (the square first: if it does not fit, nothing has been changed yet)
             self._errors2[ixbin] += weight**2
+            self._frequencies[ixbin] += weight
             try:
                 self._stats = dataclasses.replace(
                     self.statistics,
